@@ -370,4 +370,10 @@ theorem const_pool_shared_field_witness :
 
 example : 10 ≤ poolPairs.length := by decide
 
+/-- **Regenerated obligation**: the per-function reset invalidates EVERY index field that some lowering caches
+a pool label in (the pool is truncated between functions, so a field that survives points into the next
+function's pool: out of range, or at another constant). -/
+theorem every_cached_index_is_reset_between_functions :
+    (poolPairs.map (·.1)).all (fun f => Wz.Gen.ConstPool.resets.contains f) = true := by decide
+
 end Wz.C05
